@@ -521,3 +521,142 @@ pub fn ddmin(src: &str, test: &dyn Fn(&str) -> bool) -> String {
     }
     units.concat()
 }
+
+/// Comment SHAPES the lexer's `CommentsTerm` accepts and that a hand-written splitter may not:
+/// star runs before the closing slash and after the opening slash, empty comments, stars inside,
+/// `//` holding `/*` or `*/`, comments glued to each other.
+pub fn comment_shape(rng: &mut Rng) -> String {
+    let body = *rng.pick(&["", "x", " note ", " a * b ** c ", "日本", " -- ", "/", " x\n   * y\n "]);
+    let open = rng.below(5) as usize; // extra stars after `/*`
+    let close = rng.below(5) as usize; // extra stars before `*/`
+    let one = |rng: &mut Rng| -> String {
+        match rng.below(10) {
+            0 => "/**/".to_string(),
+            1 => "/***/".to_string(),
+            2 => "/****/".to_string(),
+            3 => "/*****/".to_string(),
+            4 => format!("/*{}{}*/", *rng.pick(&[" banner ", "x", " a*b "]), "*".repeat(1 + rng.below(4) as usize)),
+            _ => String::new(),
+        }
+    };
+    let fixed = one(rng);
+    let first = if !fixed.is_empty() { fixed } else { format!("/*{}{}{}*/", "*".repeat(open), body, "*".repeat(close)) };
+    match rng.below(8) {
+        // glued to a second comment, with and without whitespace
+        0 => format!("{first}/* b */"),
+        1 => format!("{first}/**/"),
+        2 => format!("{first} /* b **/"),
+        3 => format!("{first}// tail /* not a block\n"),
+        4 => format!("// has /* inside */ and **/\n{first}"),
+        _ => first,
+    }
+}
+
+/// Put comment shapes into existing whitespace runs between tokens (always after at least one
+/// blank, so no `//` or `*/` is formed with a neighbouring token), optionally at the very start
+/// of the text and before EOF without a newline.
+pub fn mutate_comment_shapes(src: &str, rng: &mut Rng, permille: u64) -> String {
+    let toks = lex(src, false);
+    let mut out = String::with_capacity(src.len() + 256);
+    if rng.chance(1, 4) {
+        out.push_str(&comment_shape(rng));
+        if rng.bool() {
+            out.push('\n');
+        }
+    }
+    let mut prev_line_comment = false;
+    for t in &toks {
+        match t.kind {
+            Kind::Ws => {
+                out.push_str(&t.text);
+                if rng.below(1000) < permille {
+                    if !t.text.ends_with([' ', '\n', '\t']) {
+                        out.push(' ');
+                    }
+                    let c = comment_shape(rng);
+                    let ends_nl = c.ends_with('\n');
+                    out.push_str(&c);
+                    // directly followed by the next token, by a blank or by a newline
+                    if !ends_nl {
+                        match rng.below(3) {
+                            0 => {}
+                            1 => out.push(' '),
+                            _ => out.push('\n'),
+                        }
+                    }
+                }
+                prev_line_comment = false;
+            }
+            Kind::LineComment => {
+                out.push_str(&t.text);
+                prev_line_comment = true;
+            }
+            _ => {
+                let _ = prev_line_comment;
+                out.push_str(&t.text);
+                prev_line_comment = false;
+            }
+        }
+    }
+    if rng.chance(1, 4) {
+        // before EOF, no newline after it
+        let mut t = out.trim_end().to_string();
+        t.push(' ');
+        let c = comment_shape(rng);
+        t.push_str(c.trim_end_matches('\n'));
+        return t;
+    }
+    out
+}
+
+/// Shape statistics of the comments of a text (independent lexer), for non-vacuity counters.
+pub fn comment_shape_counts(src: &str) -> Vec<(String, i64)> {
+    let toks = lex(src, false);
+    let mut v: std::collections::BTreeMap<String, i64> = Default::default();
+    let mut prev_comment_end: Option<usize> = None;
+    let sig: Vec<&vcommon::lex::Tok> = toks.iter().filter(|t| t.kind != Kind::Ws).collect();
+    for t in &toks {
+        match t.kind {
+            Kind::BlockComment if t.text.len() >= 4 && t.text.ends_with("*/") => {
+                let body = &t.text[2..t.text.len() - 1];
+                let close = body.chars().rev().take_while(|c| *c == '*').count();
+                let inner = &t.text[2..t.text.len() - 2];
+                let open = inner.chars().take_while(|c| *c == '*').count();
+                if close >= 2 {
+                    *v.entry("block_comments_closed_by_star_run".into()).or_default() += 1;
+                    *v.entry(format!("block_comments_closed_by_star_run:{}", close.min(6))).or_default() += 1;
+                }
+                if open >= 1 {
+                    *v.entry("block_comments_opened_by_star_run".into()).or_default() += 1;
+                }
+                if inner.is_empty() {
+                    *v.entry("empty_block_comments".into()).or_default() += 1;
+                }
+                if inner.trim_matches('*').contains('*') {
+                    *v.entry("block_comments_with_stars_inside".into()).or_default() += 1;
+                }
+                if prev_comment_end == Some(t.pos) {
+                    *v.entry("comments_glued_to_previous_comment".into()).or_default() += 1;
+                }
+                prev_comment_end = Some(t.pos + t.text.len());
+            }
+            Kind::LineComment => {
+                if t.text.contains("/*") || t.text.contains("*/") {
+                    *v.entry("line_comments_holding_block_delimiters".into()).or_default() += 1;
+                }
+                if prev_comment_end == Some(t.pos) {
+                    *v.entry("comments_glued_to_previous_comment".into()).or_default() += 1;
+                }
+                prev_comment_end = Some(t.pos + t.text.len());
+            }
+            _ => {}
+        }
+    }
+    if sig.first().is_some_and(|t| matches!(t.kind, Kind::BlockComment | Kind::LineComment)) {
+        *v.entry("texts_starting_with_a_comment".into()).or_default() += 1;
+    }
+    if !src.ends_with('\n') && sig.last().is_some_and(|t| matches!(t.kind, Kind::BlockComment | Kind::LineComment)) {
+        *v.entry("texts_ending_in_a_comment_without_newline".into()).or_default() += 1;
+    }
+    v.into_iter().collect()
+}
